@@ -81,7 +81,7 @@ C = B+"common/validator_pubkeys.go"
 m("cp-unfiltered", "cache.parent", C, "\t\tindex, ok = pc.parent.ValidatorIndex(pubkey)\n\t\t// only the history up to the fork-out point is shared with the parent\n\t\tif ok && index >= pc.trustedParentCount {\n\t\t\treturn 0, false\n\t\t}", "\t\treturn pc.parent.ValidatorIndex(pubkey)", "unsafeValidatorIndex->parent.ValidatorIndex")
 m("cp-argguard", "cache.parent", C, "\t} else if pc.parent != nil {\n\t\treturn pc.parent.Pubkey(index)\n\t} else {\n\t\treturn nil, false\n\t}", "\t}\n\tif pc.parent != nil {\n\t\treturn pc.parent.Pubkey(index)\n\t}\n\treturn nil, false", "XX-structure")
 m("cr-trusted", "cache.recursion", C, "\t\t\t\t// fork out the existing index, only trust the history\n\t\t\t\ttrustedParentCount: existingIndex,\n", "", "AddValidator.recurse")
-m("cr-noexpect", "cache.recursion", C, "\tif expected := pc.trustedParentCount + ValidatorIndex(len(pc.idx2pub)); index != expected {\n\t\t// index is unknown, but too far ahead of cache; in between indices are missing.\n\t\treturn nil, fmt.Errorf(\"AddValidator is incorrect, missing earlier index. got: (%d, %x), but currently expecting %d next\", index, pub, expected)\n\t}\n", "\t_ = fmt.Sprint\n", "AddValidator.append")
+m("cr-noexpect", "cache.recursion", C, "\tif index != expected {\n\t\t// index is unknown, but too far ahead of cache; in between indices are missing.\n\t\treturn nil, fmt.Errorf(\"AddValidator is incorrect, missing earlier index. got: (%d, %x), but currently expecting %d next\", index, pub, expected)\n\t}\n", "\t_ = fmt.Sprint\n", "AddValidator.append")
 m("cd-exists", "cache.deposit", B+"phase0/deposit.go", "exists := ok && uint64(valIndex) < valCount", "exists := ok", "ProcessDeposit.exists")
 m("cd-drop-handle", "cache.deposit", B+"phase0/deposit.go", "\t\tif pc, err := epc.ValidatorPubkeyCache.AddValidator(valIndex, pubkey); err != nil {\n\t\t\treturn err\n\t\t} else {\n\t\t\tepc.ValidatorPubkeyCache = pc\n\t\t}", "\t\tif _, err := epc.ValidatorPubkeyCache.AddValidator(valIndex, pubkey); err != nil {\n\t\t\treturn err\n\t\t}", "ProcessDeposit.cache-upkeep")
 # ---- err.flow / ctx.poll
@@ -239,7 +239,7 @@ m("sf-one-pass", "score.flow", F+"proto/proto_array.go", "\t\t\tdeltas[node.Fork
 m("sf-forward", "score.flow", F+"proto/proto_array.go", "\tfor i := len(pr.nodes) - 1; i >= 0; i-- {\n\t\tdelta := deltas[i]", "\tfor i := 0; i < len(pr.nodes); i++ {\n\t\tdelta := deltas[i]", "ApplyScoreChanges.weights.backwards")
 m("le-insubnet", "loop.exists", B+"common/epochs_context.go", "\t\t\tif valSubnet == subnet {\n\t\t\t\treturn true\n\t\t\t}", "\t\t\treturn valSubnet == subnet", "IndexedSyncCommittee.InSubnet")
 m("cu-relative", "cache.units", B+"common/validator_pubkeys.go", "\tpc.pub2idx[pub] = index\n\treturn pc, nil", "\tpc.pub2idx[pub] = index - pc.trustedParentCount\n\treturn pc, nil", "PubkeyCache.AddValidator")
-m("cu-absolute", "cache.units", B+"common/validator_pubkeys.go", "return &pc.idx2pub[index-pc.trustedParentCount], true", "return &pc.idx2pub[index], true", "PubkeyCache.unsafePubkey")
+m("cu-absolute", "cache.units", B+"common/validator_pubkeys.go", "return pc.idx2pub[index-pc.trustedParentCount], true", "return pc.idx2pub[index], true", "PubkeyCache.unsafePubkey")
 m("pk-epoch", "pool.keys", "eth2/pool/attestations.go", "key := Assignment{Index: val, Epoch: att.Data.Target.Epoch}", "key := Assignment{Index: val, Epoch: att.Data.Source.Epoch}", "AttestationPool.AddAttestation")
 m("ar-wrapper", "assert.reach", B+"common/epochs_context.go", "XX", "XX", "XX")
 
@@ -354,8 +354,14 @@ m("eq-reset-one", "exitqueue.reset", B+"phase0/registry.go", "\t\t\texitQueueEnd
 
 m("ta-setbacking-leaf", "tree.alias", B+"phase0/validator.go", "\twCred := RootView(b)\n\treturn v.Set(_validatorWithdrawalCredentials, &wCred)", "\twCred, err := v.Get(_validatorWithdrawalCredentials)\n\tif err != nil {\n\t\treturn err\n\t}\n\treturn wCred.SetBacking(&b)", "ValidatorView.SetWithdrawalCredentials:SetBacking")
 
+
+m("la-noretry", "lock.atomic", B+"common/validator_pubkeys.go", "\t\tpc.rwLock.Unlock()\n\t\treturn pc.AddValidator(index, pub)\n\t}\n\tdefer pc.rwLock.Unlock()\n", "\t\t_ = index\n\t}\n\tdefer pc.rwLock.Unlock()\n", "PubkeyCache.AddValidator")
+m("cr-retry-unguarded", "cache.recursion", B+"common/validator_pubkeys.go", "\tif index < expected {\n", "\tif index <= expected+1 || pub == (BLSPubkey{}) {\n", "AddValidator.recurse#4")
+m("lh-retry-locked", "lock.reentry", B+"common/validator_pubkeys.go", "\t\tpc.rwLock.Unlock()\n\t\treturn pc.AddValidator(index, pub)\n\t}\n\tdefer pc.rwLock.Unlock()\n", "\t\tdefer pc.rwLock.Unlock()\n\t\treturn pc.AddValidator(index, pub)\n\t}\n\tdefer pc.rwLock.Unlock()\n", "AddValidator->AddValidator")
+
 # lazy.init / lock.atomic positive cases are today's known findings (no mutant needed: they are violations on the tree)
 
 M = [x for x in M if not x["expect"].startswith("XX")]
 json.dump(M, open("mutants.json", "w"), indent=1)
 print(len(M), "mutants")
+
